@@ -369,7 +369,7 @@ rt_base!(c18_t_rt_t3_n11, 3, 11);
 rt_base!(c18_t_rt_t3_n12, 3, 12);
 rt_base!(c18_t_rt_t3_n13, 3, 13);
 rt_base!(c18_t_rt_t3_n14, 3, 14);
-rt_base!(c18_t_rt_t3_n15, 3, 15);
+rt_base!(c18_x_rt_t3_n15, 3, 15);
 rt_ptr_dec!(c18_t_rt_t4_n0_l212_dec, 4, 0, 2, 1, 2);
 rt_ptr_dec!(c18_q_rt_t4_n1_l111_dec, 4, 1, 1, 1, 1);
 rt_ptr_enc!(c18_t_rt_t4_n1_l111_enc, 4, 1, 1, 1, 1);
